@@ -175,7 +175,7 @@ pub fn run_property(prop: &str, tier: &str, threads: usize, budget: &Budget, fin
             report.rule = "for every stored state of the explored graph, every enabled operation in both forms (plain / try_), every allocator request k the operation issues is refused in turn (1 deviation); second refusals inside the same call and in every follow-up operation (2 deviations); distinct = distinct (operation, target storage, form, outcome class)".into();
             // pairs (two refusals, the second one in a follow-up operation) up to depth dp;
             // single refusals + in-call second refusals + follow-ups up to depth dw
-            let (dw, dp, ds) = if quick { (3, 2, 0) } else { (4, 2, 1) };
+            let (dw, dp, ds) = if quick { (3, 2, 0) } else { (dd(4), 2, 1) };
             let stored = bfs(&env, report, &wide, Roots::Empty, dw, Props::default(), true);
             let mut shallow = flatten(&stored, dp);
             let deep: Vec<History> = stored.iter().skip(dp + 1).flat_map(|l| l.iter().cloned()).collect();
@@ -208,7 +208,7 @@ pub fn run_property(prop: &str, tier: &str, threads: usize, budget: &Budget, fin
         }
         "C07" => {
             report.rule = "(a) for every stored state and every live handle: insert / insert_str / insert_str(\"\") / remove / truncate and their try_ forms at every byte index 0..=len+2, String as the reference for accept/panic; a rejected call must leave the exact canonical pool unchanged and issue no allocator request; (b) every text over the four character widths up to the stated length in 7 storage states (inline, static, static truncated, heap exact/spare, heap shared equal/shorter) x the same operations x every index".into();
-            let (dw, di) = if quick { (3, 3) } else { (4, 3) };
+            let (dw, di) = if quick { (3, 3) } else { (dd(4), 3) };
             let stored = bfs(&env, report, &wide, Roots::Empty, dw, Props::default(), true);
             let mut states = flatten(&stored, dw);
             states.extend(flatten(&bfs(&env, report, &wide, Roots::Seeds, 0, Props::default(), true), 0));
@@ -284,7 +284,7 @@ pub fn run_property(prop: &str, tier: &str, threads: usize, budget: &Budget, fin
         }
         "C13" => {
             report.rule = "every shrink_to / shrink_to_fit transition of the explored graph, and for every stored state and every live handle: shrink_to_fit and shrink_to(m) for every m in 0..=capacity+2 and every m of C06's SIZES, both forms; oracle = the statement's capacity algebra, texts of all handles unchanged, other handles untouched".into();
-            let (dw, dp, dsh) = if quick { (4, 3, 4) } else { (4, 4, 6) };
+            let (dw, dp, dsh) = if quick { (4, 3, 4) } else { (4, dd(4), dd(6)) };
             let stored = bfs(&env, report, &wide, Roots::Empty, dw, props, true);
             bfs(&env, report, &share, Roots::Seeds, dsh, props, true);
             let mut states = flatten(&stored, dp);
@@ -351,7 +351,7 @@ pub fn run_property(prop: &str, tier: &str, threads: usize, budget: &Budget, fin
         }
         "C18" => {
             report.rule = "for every stored state: retain / try_retain with each of 4 predicates panicking at its k-th call (every k); extend with 7 item kinds x {honest, zero} size hints with next() panicking at its k-th call (every k up to items+1); collect with the same iterators; to_lean_string / try_to_lean_string on a Display that panics after j pieces; reference = String under the same callback; afterwards all other handles unchanged, reference counts consistent, closing leaves zero live blocks; distinct = distinct (call, target storage, outcome)".into();
-            let (dw, ds) = if quick { (3, 0) } else { (4, 1) };
+            let (dw, ds) = if quick { (3, 0) } else { (dd(4), 1) };
             let stored = bfs(&env, report, &wide, Roots::Empty, dw, Props::default(), true);
             let mut states = flatten(&stored, dw);
             states.extend(flatten(&bfs(&env, report, &wide, Roots::Seeds, ds, Props::default(), true), ds));
